@@ -4,6 +4,7 @@ import LLRP.Model.Supervisor
 
 `supervisor <initialUp 0|1> <events…>`            the model of the current source (`Sup.cfgSrc`)
 `supervisor-rejcfg <initialUp 0|1> <events…>`     the same; the harness plays `cl` by having the reader refuse the service's own SetReaderConfig
+`supervisor-start <initialUp 0|1> <events…>`      the same; the harness creates the device through `Driver.Start` from a registered device with that recorded state
 `supervisor-slowsdk <initialUp 0|1> <events…>`    the same; the harness runs it with an SDK that takes 30 ms per Up report
 `supervisor-intended <initialUp 0|1> <events…>`   the model the property theorems are about (`Sup.cfgIntended`)
   events: `df` dialFail, `hf` handshakeFail, `dr` dropped, `cl` closedLocally, `cs` connStop, `cu:<a>` connUpdate a,
@@ -65,6 +66,7 @@ def handleC15 : Handler := fun args =>
   | "supervisor" :: up :: evs => some (supervisorReply cfgSrc up evs)
   | "supervisor-slowsdk" :: up :: evs => some (supervisorReply cfgSrc up evs)
   | "supervisor-rejcfg" :: up :: evs => some (supervisorReply cfgSrc up evs)
+  | "supervisor-start" :: up :: evs => some (supervisorReply cfgSrc up evs)
   | "supervisor-intended" :: up :: evs => some (supervisorReply cfgIntended up evs)
   | "supervisor-aswritten" :: up :: evs => some (supervisorReply cfgAsWritten up evs)
   | "trysend" :: outs => some (sendReply trySend outs)
